@@ -229,6 +229,17 @@ func (p *PX) term(v ssa.Value, fr *pxFrame, st *pxState) *Term {
 				return t
 			}
 			if fa, ok := x.X.(*ssa.FieldAddr); ok {
+				// a field of a local struct that was assigned as a whole from a table
+				// entry (`for _, r := range table { r.match(..) }`)
+				if al, isLocal := fa.X.(*ssa.Alloc); isLocal {
+					if _, fieldSet := st.vals[fmt.Sprintf("%s.%d", p.reg(fr, al), fa.Field)]; !fieldSet {
+						if whole, ok := st.vals[p.reg(fr, al)+"*"]; ok {
+							if t := p.concElem(whole, fa.Field, v.Type()); t != nil {
+								return t
+							}
+						}
+					}
+				}
 				key := p.fieldLoadKey(fa, fr, st)
 				if t, ok := st.vals["mem:"+key]; ok {
 					return t
@@ -584,7 +595,14 @@ func (p *PX) instrs(fr *pxFrame, b *ssa.BasicBlock, from int, st *pxState, k pxC
 		case *ssa.Store:
 			// local variable cells and symbolic byte sequences
 			if al, ok := x.Addr.(*ssa.Alloc); ok {
-				st.vals[p.reg(fr, al)+"*"] = p.term(x.Val, fr, st)
+				vt := p.term(x.Val, fr, st)
+				st.vals[p.reg(fr, al)+"*"] = vt
+				if vt.CV != nil && vt.CV.k == cvAgg {
+					// the whole struct is replaced: earlier field stores are gone
+					for i := range vt.CV.Elems {
+						delete(st.vals, fmt.Sprintf("%s.%d", p.reg(fr, al), i))
+					}
+				}
 			}
 			if fa, ok := x.Addr.(*ssa.FieldAddr); ok {
 				vt := p.term(x.Val, fr, st)
